@@ -703,6 +703,8 @@ def r6g_scope_seeds_after_collector(ctx):
         for cb, cc in calls:
             maps = {_root_local(f, a) for a in cc["args"] if op_local(a) is not None and "HashMap<std::string::String, usize" in f.local_ty(op_local(a))}
             for m in maps:
+                if any(d[0] == "arg" for d in f.defs().get(m, [])):
+                    continue      # a helper of the collector that is handed the map: its caller is the one that prepares it
                 n += 1
                 key = "R6g|%s" % f.id
                 # the map starts empty ...
